@@ -48,7 +48,7 @@ func (p Params) Validate() error {
 
 	entSigners := strings.Split(p.EntSigners, ",")
 
-	if len(entSigners) < int(p.MinAccepts) {
+	if uint64(len(entSigners)) < p.MinAccepts {
 		return fmt.Errorf("number of authorised accounts must be >= number of minimum accepts")
 	}
 
